@@ -54,8 +54,8 @@ func newRef(thorough bool) *refNotary {
 }
 
 // parties of the menu transactions (all of them are A -> B).
-var txIssuer = map[string]string{"c1": "A", "s1": "A", "c1x": "A", "m1": "A", "fund": "R"}
-var txReceiver = map[string]string{"c1": "B", "s1": "B", "c1x": "B", "m1": "B", "fund": "A"}
+var txIssuer = map[string]string{"c1": "A", "s1": "A", "c1x": "A", "m1": "A", "fund": "R", "s1h": "A", "c1h": "A"}
+var txReceiver = map[string]string{"c1": "B", "s1": "B", "c1x": "B", "m1": "B", "fund": "A", "s1h": "B", "c1h": "B"}
 
 func (r *refNotary) awaitingOf(addr string) []string {
 	var out []string
@@ -154,7 +154,7 @@ func (r *refNotary) step(ev string) expectation {
 				seal("s1", "propose", "A", "B")
 				e.class = "ok"
 			}
-		case "c1x":
+		case "c1x", "s1h", "c1h": // forged issuer signature; genuine content under a hash that is not its digest
 			e.invalidSig = true
 			e.class = "verification"
 		}
@@ -329,7 +329,7 @@ func (m *model) Enabled() []string {
 		return nil
 	}
 	out := []string{
-		"Propose:c1", "Propose:s1", "Propose:c1x",
+		"Propose:c1", "Propose:s1", "Propose:c1x", "Propose:s1h", "Propose:c1h",
 		"Confirm:B", "Confirm:X", "Confirm:none", "Confirm:echo",
 		"Reject:B", "Reject:A", "Reject:X",
 		"Data:A", "Data:B",
@@ -627,7 +627,7 @@ func (m *model) Check(ev, res string) []common.Violation {
 		wantLedger = append(wantLedger, l)
 	}
 	sort.Strings(wantLedger)
-	for _, l := range []string{"c1", "s1", "c1x", "m1"} {
+	for _, l := range []string{"c1", "s1", "c1x", "m1", "s1h", "c1h"} {
 		if n := count(m.post.ledger, l); n > 1 {
 			add("C16.sealed-once", "C16.sealed-twice/"+rpc, fmt.Sprintf("after %s transaction %s is sealed in %d vertices", ev, l, n))
 		}
@@ -641,7 +641,7 @@ func (m *model) Check(ev, res string) []common.Violation {
 			fmt.Sprintf("after %s the ledger holds [%s], the reference says [%s]", ev, strings.Join(m.post.ledger, " "), strings.Join(wantLedger, " ")))
 	}
 	// 4. property-level sealing rule, independent of the class prediction: what this call newly sealed
-	for _, l := range []string{"c1", "c1x", "m1", "s1"} {
+	for _, l := range []string{"c1", "c1x", "m1", "s1", "s1h", "c1h"} {
 		if count(m.post.ledger, l) <= count(m.pre.ledger, l) {
 			continue
 		}
